@@ -6,6 +6,7 @@ import (
 
 	"github.com/goccy/go-json/internal/errors"
 	"github.com/goccy/go-json/internal/runtime"
+	"github.com/goccy/go-json/internal/verifhook"
 )
 
 type mapDecoder struct {
@@ -243,11 +244,13 @@ func (d *mapDecoder) DecodePath(ctx *RuntimeContext, cursor, depth int64) ([][]b
 		if found {
 			if child != nil {
 				oldPath := ctx.Option.Path.node
+				verifhook.Point(8, unsafe.Pointer(&ctx.Option.Path.node), true)
 				ctx.Option.Path.node = child
 				paths, c, err := d.valueDecoder.DecodePath(ctx, cursor, depth)
 				if err != nil {
 					return nil, 0, err
 				}
+				verifhook.Point(8, unsafe.Pointer(&ctx.Option.Path.node), true)
 				ctx.Option.Path.node = oldPath
 				ret = append(ret, paths...)
 				cursor = c
